@@ -15,7 +15,13 @@ pub(crate) enum Waiter {
 impl Waiter {
   fn wake(self) {
     match self {
+      #[cfg(not(excsn_fibre_verif))]
       Waiter::Sync(thread) => thread.unpark(),
+      #[cfg(excsn_fibre_verif)]
+      Waiter::Sync(thread) => {
+        crate::verif::sched_unpark(&thread);
+        thread.unpark()
+      }
       Waiter::Async(waker) => waker.wake(),
     }
   }
